@@ -140,6 +140,23 @@ pub fn run(tier: &str) -> Result<Report, String> {
                 crate::jobs::JobResult::Crashed(e) => return Err(format!("large-BDD job crashed: {e}")),
             }
         }
+        // ... and temporal operators on the same set on a network with two rising chains (several sweeps of saturation)
+        let results: Vec<(usize, crate::jobs::JobResult)> = (0..CHAIN_CASES).into_par_iter().map(|i| (i, crate::jobs::run(&json!({"kind": "c01chains", "index": i}), if quick { 45.0 } else { 600.0 }))).collect();
+        for (i, r) in results {
+            match r {
+                crate::jobs::JobResult::Done(v) => {
+                    if let Some(e) = v.get("error") {
+                        return Err(format!("large-BDD chain job: {e}"));
+                    }
+                    done += v["cases"].as_u64().unwrap_or(0);
+                    for p in v["problems"].as_array().cloned().unwrap_or_default() {
+                        rep.violations.push(crate::report::Violation { case: json!({"kind": "c01chains", "index": i}), what: format!("on synthetic:pairs16chains (p = AND_i (a_i <=> b_i), two rising chains): {}", p["what"].as_str().unwrap_or("")), size: 70 });
+                    }
+                }
+                crate::jobs::JobResult::Timeout => rep.cap(format!("large-BDD chain case {i} exceeded its wall limit and was stopped (no verdict)")),
+                crate::jobs::JobResult::Crashed(e) => return Err(format!("large-BDD chain job crashed: {e}")),
+            }
+        }
         rep.evaluations += done;
         parts.push(json!({"part": "large BDD sets", "model": "synthetic:pairs16", "bdd_nodes_of_p": nodes, "closed_form_cases_done": done}));
     }
@@ -233,7 +250,7 @@ pub fn run(tier: &str) -> Result<Report, String> {
     }
     parts.push(json!({"part": "operator slices", "nodes_exactly": m_slice, "slices": if quick { sl.len().div_ceil(7) } else { sl.len() }, "slice_names": sl.iter().map(|s| s.0.clone()).collect::<Vec<_>>(), "formulae": slice_total, "networks": slice_nets}));
     rep.set("parts", json!(parts));
-    rep.rule = "(1) all closed formulae with at most max_nodes nodes over the plain operator set, all closed formulae with at most max_nodes-1 nodes over all nine binary operators that use EW or AW, and the template families (benchmark formulae, two/three-variable quantifier nests with jumps, duplicated sub-formulae with swapped variable roles, one-free-variable sub-formulae with inner quantifiers duplicated at equal and different quantifier depths in both orders) on every core network through model_check_formula, _dirty, model_check_tree, _tree_dirty; (1a) all closed formulae with <= 3 (4) nodes over all operators + templates on four networks whose variable names are unusual as data (Ca_extra_cell / b_extra_1, x / xx, a / ab, EF1 / TRUE); (1e) the same bound on five networks that are unusual as data (constants only, a constant feeding a toggle, 4 variables, an implicit function of 3 regulators, a sink); (1c) deterministic deep quantifier nests (4..10 quantifiers on one branch on 1-variable networks, up to 6 on con2; graphs with as many spare variable sets); (1d) 13 hybrid formulae with closed forms on a frozen 32-variable network whose argument set has a BDD of ~2^17 nodes (large as data); (1b) every ordered pair of a pool of closed formulae as a two-element batch through model_check_multiple_formulae(_dirty), each position against the oracle; (2) all closed formulae with <= 3 (every 25th network: 4) nodes on every network of the de-duplicated family of ALL 2-variable networks of the grammar; (3) all closed formulae with exactly m nodes in every operator slice (each pair of operator groups x each quantifier, jump included). Every result is compared on every state x valid colour with the explicit-state oracle; distinct_nontrivial = number of distinct (network, verdict table) pairs that are neither empty nor full".into();
+    rep.rule = "(1) all closed formulae with at most max_nodes nodes over the plain operator set, all closed formulae with at most max_nodes-1 nodes over all nine binary operators that use EW or AW, and the template families (benchmark formulae, two/three-variable quantifier nests with jumps, duplicated sub-formulae with swapped variable roles, one-free-variable sub-formulae with inner quantifiers duplicated at equal and different quantifier depths in both orders) on every core network through model_check_formula, _dirty, model_check_tree, _tree_dirty; (1a) all closed formulae with <= 3 (4) nodes over all operators + templates on four networks whose variable names are unusual as data (Ca_extra_cell / b_extra_1, x / xx, a / ab, EF1 / TRUE); (1e) the same bound on five networks that are unusual as data (constants only, a constant feeding a toggle, 4 variables, an implicit function of 3 regulators, a sink); (1c) deterministic deep quantifier nests (4..10 quantifiers on one branch on 1-variable networks, up to 6 on con2; graphs with as many spare variable sets); (1d) 13 hybrid formulae with closed forms on a frozen 32-variable network whose argument set has a BDD of ~2^17 nodes (large as data), and 8 temporal formulae with closed forms on the same set on a network with two rising chains; (1b) every ordered pair of a pool of closed formulae as a two-element batch through model_check_multiple_formulae(_dirty), each position against the oracle; (2) all closed formulae with <= 3 (every 25th network: 4) nodes on every network of the de-duplicated family of ALL 2-variable networks of the grammar; (3) all closed formulae with exactly m nodes in every operator slice (each pair of operator groups x each quantifier, jump included). Every result is compared on every state x valid colour with the explicit-state oracle; distinct_nontrivial = number of distinct (network, verdict table) pairs that are neither empty nor full".into();
     Ok(rep)
 }
 
@@ -312,6 +329,66 @@ pub fn job(job: &serde_json::Value) -> serde_json::Value {
 }
 
 pub const BIG_CASES: usize = 13;
+pub const CHAIN_CASES: usize = 8;
+
+/// Child job: temporal operators on the frozen-pairs network extended by two rising chains; the argument set is
+/// p = AND_i (a_i <=> b_i) (2^17 BDD nodes) and a state reaches c3 & z0 iff some c_j and some z_j is already 1.
+pub fn job_chains(job: &serde_json::Value) -> serde_json::Value {
+    use biodivine_hctl_model_checker::model_checking as mc;
+    use biodivine_lib_param_bn::biodivine_std::traits::Set;
+    use biodivine_lib_param_bn::symbolic_async_graph::GraphColoredVertices;
+    use std::collections::HashMap;
+    let t0 = std::time::Instant::now();
+    let big = match crate::bigmodels::load("synthetic:pairs16chains", 1) {
+        Ok(b) => b,
+        Err(e) => return json!({"error": e}),
+    };
+    let g = &big.graph;
+    let sc = g.symbolic_context();
+    let by = |n: &str| g.variables().find(|v| g.get_variable_name(*v) == n).map(|v| sc.mk_state_variable_is_true(v)).unwrap();
+    let mut bdd = sc.mk_constant(true);
+    for i in 0..16 {
+        bdd = bdd.and(&by(&format!("a{i:02}")).iff(&by(&format!("b{i:02}"))));
+    }
+    let p = GraphColoredVertices::new(bdd.clone(), sc);
+    let some_c = by("c0").or(&by("c1")).or(&by("c2")).or(&by("c3"));
+    let some_z = by("z0").or(&by("z1")).or(&by("z2")).or(&by("z3"));
+    let can = GraphColoredVertices::new(bdd.and(&some_c).and(&some_z), sc);
+    let unit = g.mk_unit_colored_vertices();
+    let target = GraphColoredVertices::new(bdd.and(&by("c3")).and(&by("z0")), sc);
+    let ctx: HashMap<String, GraphColoredVertices> = HashMap::from([("p".to_string(), p.clone()), ("t".to_string(), target.clone())]);
+    let cases: Vec<(&str, GraphColoredVertices)> = vec![
+        ("EF (%p% & c3 & z0)", can.clone()),
+        ("EF %t%", can.clone()),
+        ("%p% EU %t%", can.clone()),
+        ("True EU (%p% & c3 & z0)", can.clone()),
+        ("AG (~ %t%)", unit.minus(&can)),
+        ("AF %t%", can.clone()),
+        ("(~ %t%) AW False", unit.minus(&can)),
+        ("3{x}: @{x}: (EF %t%)", unit.clone()),
+    ];
+    assert_eq!(cases.len(), CHAIN_CASES);
+    let mut problems = vec![];
+    let mut n = 0u64;
+    for (ci, (text, want)) in cases.iter().enumerate() {
+        if let Some(i) = job["index"].as_u64() {
+            if i as usize != ci {
+                continue;
+            }
+        }
+        n += 1;
+        let what = match crate::report::guarded(std::panic::AssertUnwindSafe(|| mc::model_check_extended_formula_dirty(text, g, &ctx))) {
+            Ok(Ok(s)) if s.as_bdd() == want.as_bdd() => None,
+            Ok(Ok(s)) => Some(format!("`{text}` has {} states, the closed form has {}", s.vertices().exact_cardinality(), want.vertices().exact_cardinality())),
+            Ok(Err(e)) => Some(format!("`{text}` returns Err: {e}")),
+            Err(pn) => Some(format!("`{text}` panics: {pn}")),
+        };
+        if let Some(w) = what {
+            problems.push(json!({"case": text, "what": w}));
+        }
+    }
+    json!({"cases": n, "problems": problems, "variables": g.num_vars(), "bdd_nodes_of_p": p.as_bdd().size(), "wall_s": t0.elapsed().as_secs_f64()})
+}
 
 pub fn replay_big(case: &serde_json::Value) -> Option<String> {
     let v = job(&json!({"kind": "c01big", "model": case["model"], "only": case["only"], "index": case["index"]}));
